@@ -142,21 +142,27 @@ def job_pattern(job, res):
     pat = _m['pat']
 
     def body(ex, pr):
-        t = S.sym_real('t', (5,), 'float64')
-        for k in (2, 3):
-            p = S.sym_real('p', (k,), 'float64')
+        for k, alias in ((2, False), (3, False), (2, True)):
+            # alias: the pattern is a view of the trace itself (pattern = trace[1:3]), the usual way of picking a pattern
+            def fresh(k=k, alias=alias):               # fresh arrays (same symbols) per call: nothing a call may have done to its arguments carries over
+                t_ = S.sym_real('t', (5,), 'float64')
+                return t_, (t_[1:1 + k] if alias else S.sym_real('p', (k,), 'float64'))
+            t, p = fresh()
             T = [E.R(v) for v in S.terms(t)]
             P = [E.R(v) for v in S.terms(p)]
             nwin = 5 - k + 1
             mark = len(CTX.side)
-            wit = lambda m, nm='': dict(kind='pattern', fn=nm, k=k, t=L.model_values(m, t), p=L.model_values(m, p), key=dict(kind='pattern', fn=nm))  # noqa: E731
+            wit = lambda m, nm='', k=k, alias=alias, T=T, P=P: dict(kind='pattern', fn=nm, k=k, alias=alias, t=dict(shape=[5], dtype='float64', values=[[L.frac_of_model(m, v).numerator, L.frac_of_model(m, v).denominator] for v in T]), p=dict(shape=[k], dtype='float64', values=[[L.frac_of_model(m, v).numerator, L.frac_of_model(m, v).denominator] for v in P]), key=dict(kind='pattern', fn=nm))  # noqa: E731
             out = pat.distance(t, p)
             ok = tuple(out.shape) == (nwin,)
             for i in range(nwin if ok else 0):
                 d2 = z3.Sum([(T[i + j] - P[j]) * (T[i + j] - P[j]) for j in range(k)])
                 rad = next((r for sy, r in CTX.sqrts if E.is_sym(out.c[i]) and out.c[i].eq(sy)), None)
+                if rad is None and not E.is_sym(out.c[i]):          # a window that is the pattern itself: concrete 0
+                    rad = E.R(out.c[i]) * E.R(out.c[i])
                 ok = ok and rad is not None and is_identity(rad == d2)
-            pr.prove(z3.BoolVal(bool(ok)), f'distance(trace[5], pattern[{k}])[i] == Euclidean distance between window i and the pattern', lambda m: wit(m, 'distance'))
+            pr.prove(z3.BoolVal(bool(ok)), f'distance(trace[5], pattern[{k}]{" = a view of the trace" if alias else ""})[i] == Euclidean distance between window i and the pattern', lambda m: wit(m, 'distance'))
+            t, p = fresh()
             out = pat.correlation(t, p)
             ok = tuple(out.shape) == (nwin,)
             for i in range(nwin if ok else 0):
@@ -167,7 +173,8 @@ def job_pattern(job, res):
                 dfree = z3.substitute(den, *[(sy, z3.RealVal(1)) for sy, _ in CTX.sqrts])
                 c_ = L.proportional(num * dfree, cov)
                 ok = ok and den2 is not None and is_identity(num * num * vx * vy == cov * cov * den2) and c_ is not None and c_ > 0 and is_identity(num * dfree == L.rv(c_) * cov)
-            pr.prove(z3.BoolVal(bool(ok)), f'correlation(trace[5], pattern[{k}])[i] == Pearson correlation between window i and the pattern (squared form + sign)', lambda m: wit(m, 'correlation'))
+            pr.prove(z3.BoolVal(bool(ok)), f'correlation(trace[5], pattern[{k}]{" = a view of the trace" if alias else ""})[i] == Pearson correlation between window i and the pattern (squared form + sign)', lambda m: wit(m, 'correlation'))
+            t, p = fresh()
             out = pat.bcdc(t, p)
             ok = tuple(out.shape) == (nwin,)
             for i in range(nwin if ok else 0):
@@ -177,11 +184,14 @@ def job_pattern(job, res):
                 vnum = z3.Sum([v * v for v in dm]) / k - (z3.Sum(dm) / k) ** 2
                 vden = z3.Sum([v * v for v in sm]) / k - (z3.Sum(sm) / k) ** 2
                 g = out.c[i]
+                if not E.is_sym(g):            # a window that is the pattern itself: the concrete ratio 0
+                    ok = ok and is_identity(E.R(g) * E.R(g) * z3.If(vden >= 0, vden, -vden) == z3.If(vnum >= 0, vnum, -vnum))
+                    continue
                 num, den = L.ratform(E.R(g))
                 rn = next((r for sy, r in CTX.sqrts if num.eq(sy) or z3.simplify(num).eq(sy)), None)
                 rd = next((r for sy, r in CTX.sqrts if den.eq(sy) or z3.simplify(den).eq(sy)), None)
                 ok = ok and rn is not None and rd is not None and is_identity(rn == z3.If(vnum >= 0, vnum, -vnum)) and is_identity(rd == z3.If(vden >= 0, vden, -vden))
-            pr.prove(z3.BoolVal(bool(ok)), f'bcdc(trace[5], pattern[{k}])[i] == sqrt|var(window - pattern)| / sqrt|var(window + pattern)|', lambda m: wit(m, 'bcdc'))
+            pr.prove(z3.BoolVal(bool(ok)), f'bcdc(trace[5], pattern[{k}]{" = a view of the trace" if alias else ""})[i] == sqrt|var(window - pattern)| / sqrt|var(window + pattern)|', lambda m: wit(m, 'bcdc'))
             del CTX.side[mark:]
     explore(res, body, max_paths=16, timeout_ms=20000, exact=True)
 
@@ -256,20 +266,16 @@ def job_width(job, res):
         X = [E.R(v) for v in S.terms(x)]
         settings = [(1, None, None), (2, None, None), (1, 2, None), (2, 3, None), (2, None, 1)]
         first = True
+        # the strictly-beyond mask is decided by the harness, before and independently of the comparisons the code makes
+        # (a sample equal to the threshold is on the not-beyond side; the code's own comparison then forks there if it differs)
+        beyond0 = [bool(ex.branch((v > thr) if direction is peaks.Direction.POSITIVE else (v < thr))) for v in X]
         for (mw, xw, dl) in settings:
             # `threshold` must be a Python number for the argument check: the harness passes the symbolic scalar through a float subclass stand-in
             out = peaks.find_width.__wrapped__(x, direction, thr_s, mw, xw, dl) if hasattr(peaks.find_width, '__wrapped__') else _call_width(peaks, x, direction, thr_s, mw, xw, dl)
             got = S._w(out)
             gl = got.typed().tolist() if not got.sym else None
             # the mask decided on this path
-            beyond = []
-            for v in X:
-                c = (v > thr) if direction is peaks.Direction.POSITIVE else (v < thr)
-                r, _ = ex.check(z3.Not(c))
-                beyond.append(r == 'unsat')
-                r2, _ = ex.check(c)
-                if r != 'unsat' and r2 != 'unsat':
-                    beyond[-1] = None
+            beyond = list(beyond0)
             ok = gl is not None and None not in beyond and [list(map(int, r_)) for r_ in gl] == runs_oracle(beyond, mw, xw, dl)
             pr.prove(z3.BoolVal(bool(ok)), f'find_width({job["direction"]}, min_width={mw}, max_width={xw}, delta={dl}) on the path with strictly-beyond mask {beyond}: result {gl} == maximal bracketed runs within the bounds, as [first, last + 1]',
                      lambda m, mw=mw, xw=xw, dl=dl: dict(kind='width', direction=job['direction'], n=n, mw=mw, xw=xw, dl=dl, x=L.model_values(m, x), thr=[L.frac_of_model(m, thr).numerator, L.frac_of_model(m, thr).denominator],
@@ -448,8 +454,12 @@ def replay(w):
         k = w['k']
         tries = [(L.to_numpy(w['t']), L.to_numpy(w['p']))] + [(np.array([rnd.uniform(-3, 3) for _ in range(5)]), np.array([rnd.uniform(-3, 3) for _ in range(k)])) for _ in range(4)]
         for t, p in tries:
+            t = np.array(t, dtype='float64')
+            p = t[1:1 + k] if w.get('alias') else np.array(p, dtype='float64')
+            t0, p0 = t.copy(), p.copy()
             with np.errstate(all='ignore'):
                 out = np.array(getattr(sp, w['fn'])(t, p))
+            t, p = t0, p0                       # the reference is computed from what the caller passed
             sw = np.lib.stride_tricks.sliding_window_view(t, k)
             if w['fn'] == 'distance':
                 exp = np.sqrt(((sw - p) ** 2).sum(-1))
@@ -457,7 +467,7 @@ def replay(w):
                 exp = np.array([np.corrcoef(r, p)[0, 1] for r in sw])
             else:
                 exp = np.sqrt(np.abs((sw - p).var(-1))) / np.sqrt(np.abs((sw + p).var(-1)))
-            if out.shape != exp.shape or not np.allclose(out, exp, rtol=1e-6, atol=1e-8, equal_nan=True):
+            if out.shape != exp.shape or not np.allclose(out, exp, rtol=1e-6, atol=1e-6, equal_nan=True):      # sqrt of a cancelled difference: absolute error ~ 1e-8 |x|
                 return dict(reproduced=True, detail=f'{w["fn"]}({t.tolist()}, {p.tolist()}) = {out.tolist()} expected {exp.tolist()}')
         return dict(reproduced=False, detail='agrees')
     if w['kind'] == 'width':
